@@ -86,7 +86,7 @@ class World:
         p = live[-1]
         opts = [m for m in self.menu if m != "stay" or self.idle < 2]
         if p.program.done():
-            opts = [m for m in opts if m in ("finish", "die", "stay")]
+            opts = [m for m in opts if m in ("finish", "die", "stay")] or ["finish"]
         c = self.ch.choose(len(opts), "proc") if len(opts) > 1 else 0
         act = opts[c]
         if act == "stay":
@@ -100,6 +100,8 @@ class World:
         elif act == "finish":
             p.program.finish()
             p.returncode = 0
+        elif act in ("pos", "vel"):
+            p.program.advance(1, what=act)
         elif act == "die":
             p.program.advance(1, partial=True)
             p.returncode = 1
@@ -140,13 +142,16 @@ class World:
                 setsid = staticmethod(lambda: None)
 
             module.os = OsProxy()
-        self._patched = (module, saved)
+        if not hasattr(self, "_patched"):
+            self._patched = []
+        self._patched.append((module, saved))
         return self
 
     def unpatch(self):
-        module, saved = self._patched
-        for k, v in saved.items():
-            setattr(module, k, v)
+        for module, saved in self._patched:
+            for k, v in saved.items():
+                setattr(module, k, v)
+        self._patched = []
 
 
 # ---------------------------------------------------------------------------
@@ -244,3 +249,186 @@ class LammpsProgram:
     def finish(self):
         while not self.done():
             self.advance(1)
+
+
+# ---------------------------------------------------------------------------
+# CP2K
+# ---------------------------------------------------------------------------
+
+
+def parse_cp2k_run_inp(path):
+    """Minimal reader of what the fake CP2K needs from run.inp."""
+    out = dict(project="MD", steps=0, vel=[], coord=None, each=1)
+    sect = []
+    with open(path) as f:
+        for line in f:
+            t = line.strip()
+            if not t or t.startswith("#"):
+                continue
+            if t.upper().startswith("&END"):
+                if sect:
+                    sect.pop()
+                continue
+            if t.startswith("&"):
+                sect.append(t[1:].split()[0].upper())
+                continue
+            sp = t.split()
+            key = sp[0].upper()
+            if sect and sect[-1] == "VELOCITY":
+                out["vel"].append([float(x) for x in sp[:3]])
+            elif key == "PROJECT":
+                out["project"] = sp[1]
+            elif key == "STEPS" and "MD" in sect:
+                out["steps"] = int(sp[1])
+            elif key == "COORD_FILE_NAME":
+                out["coord"] = sp[1]
+            elif key == "MD" and sect and sect[-1] == "EACH" and "TRAJECTORY" in sect:
+                out["each"] = int(sp[1])
+    return out
+
+
+class Cp2kProgram:
+    """Fake CP2K: <project>-pos-1.xyz and <project>-vel-1.xyz, one frame every `each` steps,
+    written independently (the two files need not be in step)."""
+
+    def __init__(self, cmd, cwd, record=None):
+        self.cwd = cwd
+        inp = os.path.join(cwd, cmd[cmd.index("-i") + 1])
+        v = parse_cp2k_run_inp(inp)
+        self.inp = v
+        self.name = v["project"]
+        self.each = max(1, v["each"])
+        self.nframes = v["steps"] // self.each + 1
+        from infretis.classes.engines.engineparts import convert_snapshot, read_xyz_file
+
+        for snap in read_xyz_file(os.path.join(cwd, v["coord"])):
+            _, xyz, _, names = convert_snapshot(snap)
+            break
+        self.names = names
+        self.flight = Flight(xyz, np.array(v["vel"], dtype=float), np.zeros((3, 2)))
+        self.pos_file = os.path.join(cwd, f"{self.name}-pos-1.xyz")
+        self.vel_file = os.path.join(cwd, f"{self.name}-vel-1.xyz")
+        self.kp = 0
+        self.kv = 0
+        with open(os.path.join(cwd, f"{self.name}-1.ener"), "w") as f:
+            f.write("# Step Time Kin Temp Pot Cons UsedTime\n")
+            for s in range(0, v["steps"] + 1):
+                f.write(f"{s} {0.5 * s} {0.001 * (s + 1)} 300.0 {-1.0 - 0.01 * s} -1.0 0.1\n")
+        if record is not None:
+            record.append(self)
+
+    def _frame(self, k, what):
+        pos, vel, _ = self.flight.frame(k, self.each)
+        arr = pos if what == "pos" else vel
+        lines = [f"{len(arr):8d}\n", f" i = {k * self.each:8d}, time = {0.5 * k:12.3f}, E = {-1.0:20.10f}\n"]
+        for nm, row in zip(self.names, arr):
+            lines.append(f"  {nm} {row[0]:20.10f} {row[1]:20.10f} {row[2]:20.10f}\n")
+        return "".join(lines)
+
+    def done(self):
+        return self.kp >= self.nframes and self.kv >= self.nframes
+
+    def advance(self, n, partial=False, what="both"):
+        for _ in range(n):
+            if what in ("both", "pos") and self.kp < self.nframes:
+                txt = self._frame(self.kp, "pos")
+                with open(self.pos_file, "a") as f:
+                    f.write(txt[: len(txt) // 2] if partial else txt)
+                if not partial:
+                    self.kp += 1
+            if what in ("both", "vel") and self.kv < self.nframes:
+                txt = self._frame(self.kv, "vel")
+                with open(self.vel_file, "a") as f:
+                    f.write(txt[: len(txt) // 2] if partial else txt)
+                if not partial:
+                    self.kv += 1
+            if partial:
+                return
+
+    def finish(self):
+        while not self.done():
+            self.advance(1)
+
+
+# ---------------------------------------------------------------------------
+# GROMACS (grompp / mdrun / energy)
+# ---------------------------------------------------------------------------
+
+
+class GmxProgram:
+    """Fake gmx: 'grompp' records its inputs in the tpr file, 'mdrun' writes
+    <deffnm>.trr / .edr frame by frame (big-endian single precision as GROMACS
+    does), 'energy' writes energy.xvg."""
+
+    def __init__(self, cmd, cwd, boxes=None, record=None, registry=None):
+        self.cmd = list(cmd)
+        self.cwd = cwd
+        self.kind = next((c for c in cmd if c in ("grompp", "mdrun", "energy")), "other")
+        self.registry = registry if registry is not None else {}
+        self.k = 0
+        self.nframes = 0
+        self.written = []
+        self.boxes = boxes
+        if self.kind == "mdrun":
+            self.deffnm = cmd[cmd.index("-deffnm") + 1]
+            tpr = cmd[cmd.index("-s") + 1]
+            info = self.registry[os.path.basename(tpr)]
+            from infretis.classes.engines.enginebase import EngineBase
+            from infretis.classes.engines.gromacs import read_gromos96_file
+
+            mdp = EngineBase._read_input_settings(info["mdp"])
+            self.nsteps = int(mdp["nsteps"])
+            self.nst = max(1, int(mdp.get("nstxout", 1)))
+            self.nframes = self.nsteps // self.nst + 1
+            _, xyz, vel, box = read_gromos96_file(info["conf"])
+            self.flight = Flight(xyz, vel, np.diag(box[:3]), [np.diag(b) for b in (boxes or [])])
+            self.trr = os.path.join(cwd, f"{self.deffnm}.trr")
+            self.edr = os.path.join(cwd, f"{self.deffnm}.edr")
+            if record is not None:
+                record.append(self)
+
+    def _frame_bytes(self, k):
+        from vf.ref import trr
+
+        pos, vel, box = self.flight.frame(k, self.nst)
+        b, _ = trr.encode_frame(pos, vel, None, box, step=k * self.nst, time=0.1 * k, endian=">", double=False)
+        return b, (pos, vel, box)
+
+    def done(self):
+        return self.kind != "mdrun" or self.k >= self.nframes
+
+    def advance(self, n, partial=False):
+        if self.kind != "mdrun":
+            return
+        for _ in range(n):
+            if self.k >= self.nframes:
+                return
+            if self.k == 0 and not os.path.exists(self.edr):
+                with open(self.edr, "wb") as f:
+                    f.write(b"edr")
+            b, fr = self._frame_bytes(self.k)
+            with open(self.trr, "ab") as f:
+                if partial:
+                    f.write(b[: len(b) // 2])
+                    return
+                f.write(b)
+            self.written.append(fr)
+            self.k += 1
+
+    def finish(self):
+        if self.kind == "grompp":
+            c = self.cmd
+            tpr = c[c.index("-o") + 1]
+            self.registry[os.path.basename(tpr)] = dict(mdp=c[c.index("-f") + 1], conf=c[c.index("-c") + 1])
+            with open(os.path.join(self.cwd, tpr), "w") as f:
+                f.write("fake tpr\n")
+            with open(os.path.join(self.cwd, "mdout.mdp"), "w") as f:
+                f.write("; fake\n")
+        elif self.kind == "energy":
+            with open(os.path.join(self.cwd, "energy.xvg"), "w") as f:
+                f.write('@ s0 legend "Potential"\n@ s1 legend "Kinetic En."\n')
+                for k in range(200):
+                    f.write(f"{0.1 * k} {-1.0 - k} {0.5 + k}\n")
+        else:
+            while not self.done():
+                self.advance(1)
